@@ -637,9 +637,16 @@ def _mentions_field(b, seen, name):
     return False
 
 
+def r7(ctx, facts):
+    """shared with C12 (stated there as R8): the ring-ordered view of an NTS replica set starts at a node of a datacenter the
+    keyspace replicates to, so it names the same nodes as the set's size, iteration and random choice do"""
+    from .c12 import r8 as c12_r8
+    c12_r8(ctx, facts)
+
+
 def check(ctx):
     facts = inline_view(ctx.facts("default"))
-    for fn in (r1, r2, r3, r4, r5, r6):
+    for fn in (r1, r2, r3, r4, r5, r6, r7):
         try:
             fn(ctx, facts)
         except AnchorLost as ex:
